@@ -483,8 +483,11 @@ def r5(ctx):
     ctx.emit('C03-R5', ok, BARCODEPARSER, h, 'pending loader: parse_barcode_file -> expand(self.hammingDistanceExpansion, alias) -> del pending entry', key='pending-loader')
     # who may call parse_barcode_file / touch pending_files
     bad = []
+    # a private helper whose body was analysed inside the constructor / the pending loader (inlined there) is part of them
+    inl = [(c_.split('.')[-1], h_.split(':')[-1].split('.')[-1]) for c_, h_, _how in (getattr(ctx.ix.module(BARCODEPARSER), 'inlined', None) or [])]
+    part_of = {h_ for c_, h_ in inl if h_.startswith('_') and all(c2 in ('__init__', 'parse_pending_barcode_file_of_alias') for c2, h2 in inl if h2 == h_)}
     for name, m in ms.items():
-        if name in ('__init__', 'parse_pending_barcode_file_of_alias'):
+        if name in ('__init__', 'parse_pending_barcode_file_of_alias') or name in part_of:
             continue
         for x in walk_no_nested(m):
             if isinstance(x, ast.Call) and src(x.func) == 'self.parse_barcode_file':
@@ -498,7 +501,10 @@ def r5(ctx):
     if not bad:
         ctx.emit('C03-R5', True, BARCODEPARSER, c, 'parse_barcode_file is only called from the constructor and the expanding pending loader', key='pending-bypass')
     init = ms['__init__']
-    post = [s for s in walk_no_nested(init) if isinstance(s, ast.If) and pred_is(s.test, lambda e: e['k'] > 0, {'hammingDistanceExpansion': 'k', 'self.hammingDistanceExpansion': 'k'}) and any('self.expand(hammingDistanceExpansion' in src(x) for x in s.body)]
+    # the attribute holds the constructor argument (stored once, from the parameter)
+    stores_k = [s_ for s_ in walk_no_nested(init) if isinstance(s_, ast.Assign) and any(src(t_) == 'self.hammingDistanceExpansion' for t_ in s_.targets)]
+    stored_k = bool(stores_k) and all(src(s_.value) == 'hammingDistanceExpansion' for s_ in stores_k)
+    post = [s for s in walk_no_nested(init) if isinstance(s, ast.If) and pred_is(s.test, lambda e: e['k'] > 0, {'hammingDistanceExpansion': 'k', 'self.hammingDistanceExpansion': 'k'}) and any('self.expand(hammingDistanceExpansion' in src(x) or ('self.expand(self.hammingDistanceExpansion' in src(x) and stored_k) for x in s.body)]
     ctx.emit('C03-R5', len(post) == 1, BARCODEPARSER, post[0] if post else init, 'eager loading expands every parsed alias when the distance is > 0', key='eager-expand')
     gi = ms.get('__getitem__')
     if gi is not None:
@@ -558,6 +564,8 @@ def r7(ctx):
     def handles_of(fn):
         return {it.optional_vars.id for w in walk_no_nested(fn) if isinstance(w, ast.With) for it in w.items if isinstance(it.optional_vars, ast.Name)}
     loops = [l for l in walk_no_nested(f) if isinstance(l, ast.For) and any(isinstance(c, ast.Call) and isinstance(c.func, ast.Attribute) and c.func.attr == 'addBarcode' for c in ast.walk(l))]
+    # `for _inl_once in (None,)` is the one-pass wrapper the inliner puts around a consumer body that contains `continue`: not a loop over lines
+    loops = [l for l in loops if not (isinstance(l.target, ast.Name) and l.target.id.startswith('_inl_once'))]
     ctx.need('C03-R7', len(loops), 1, 'loops registering barcodes in parse_barcode_file')
 
     def whole(e, depth=0, scope=None):
